@@ -27,7 +27,10 @@ pub struct MemFs {
 
 impl MemFs {
     pub fn path_of(&self, id: FileId) -> Option<String> {
-        self.id_to_path.get(&id).map(|p| p.0.to_string_lossy().to_string())
+        // spelled component by component: `PathBuf` equality (which keys the id table, here and in the
+        // server's Vfs) ignores repeated and trailing separators and interior `.` components, so the
+        // spelling that was assigned first is an accident of the history, not part of any answer
+        self.id_to_path.get(&id).map(|p| p.0.components().collect::<PathBuf>().to_string_lossy().to_string())
     }
     pub fn id_of(&self, path: &str) -> Option<FileId> {
         self.path_to_id.get(&FilePath(PathBuf::from(path))).copied()
@@ -54,6 +57,12 @@ impl FileSystem for MemFs {
         &self.id_to_path[file_id]
     }
     fn read_content(&self, file_path: &FilePath) -> Option<String> {
+        // a real file system refuses `file.td/` and `file.td/.` (ENOTDIR); `PathBuf` equality would
+        // find the file
+        let raw = file_path.0.to_string_lossy();
+        if raw.ends_with('/') || raw.ends_with("/.") {
+            return None;
+        }
         self.files.get(&file_path.0).cloned()
     }
 }
